@@ -296,7 +296,7 @@ func repoKeysScanner(ctx context.Context, contextStore context2.Stores, repo mod
 				Logger(zap.NewNop()), // mute verbosity on retrieving bundle details
 			)
 
-			keys, erk := bundleKeys(ctx, b, bundle.LeafSize, db, lg)
+			keys, erk := bundleKeys(ctx, b, bundle.LeafSize, db, lg, options.resume)
 			if erk != nil {
 				return erk
 			}
@@ -514,7 +514,7 @@ func insistantBackoff() backoff.BackOff {
 	return withRetry
 }
 
-func bundleKeys(ctx context.Context, b *Bundle, size uint32, db kvStore, logger *zap.Logger) ([]string, error) {
+func bundleKeys(ctx context.Context, b *Bundle, size uint32, db kvStore, logger *zap.Logger, resumed bool) ([]string, error) {
 	if err := backoff.Retry(func() error {
 		return unpackBundleFileList(ctx, b, false, defaultBundleEntriesPerFile)
 	},
@@ -543,10 +543,12 @@ func bundleKeys(ctx context.Context, b *Bundle, size uint32, db kvStore, logger 
 			return nil, err
 		}
 
-		if found {
+		if found && !resumed {
 			// the root key is found in store, no need to unpack it: we necessarily have all its leaves in store
 			continue
 		}
+		// NOTE: when resuming an interrupted index, a root key reloaded from the stored chunks does not tell
+		// that its leaves were stored too (they may belong to a chunk that was never written): resolve them again.
 
 		keys = append(keys, key)
 
